@@ -7,7 +7,7 @@ from mc.env import dask, pd, np
 
 ID = "C12"
 
-KEYS = ["int", "float", "str", "cat", "intnull", "two", "index", "series"]
+KEYS = ["int", "float", "str", "cat", "intnull", "two", "index", "idxname", "series"]
 
 
 def make_frame(n_in, keykind, rows_per_part=6):
@@ -30,7 +30,10 @@ def make_frame(n_in, keykind, rows_per_part=6):
             df.loc[df["k"] == 5, "k"] = np.nan
         elif keykind == "index":
             df = df.set_index("k", drop=False).rename_axis("ki")
-        if keykind != "index":
+        elif keykind == "idxname":
+            # the key lives only in the (named) index and is referred to by that name
+            df = df.set_index("k", drop=True).rename_axis("ki")
+        if keykind not in ("index", "idxname"):
             df.index = pd.RangeIndex(p * 100, p * 100 + len(df))
         parts.append(df)
     return parts
@@ -45,6 +48,8 @@ def shuffle_call(df, case):
         return df.shuffle(on=["k", "j"], **kw)
     if kk == "index":
         return df.shuffle(on_index=True, **kw)
+    if kk == "idxname":
+        return df.shuffle(on="ki", **kw)
     if kk == "series":
         return df.shuffle(on=df["k"] * 1, **kw)
     return df.shuffle(on="k", **kw)
@@ -58,6 +63,8 @@ def rowset(parts):
 
 
 def key_tokens(p, kk):
+    if kk == "idxname":
+        return [core.norm_value(v) for v in p.index.tolist()]
     if kk == "two":
         return [tuple(x) for x in p[["k", "j"]].itertuples(index=False, name=None)]
     return [core.norm_value(v) for v in p["k"].tolist()]
@@ -144,14 +151,14 @@ def evaluate_cross(case):
     try:
         with time_limit(120):
             assigns = {}
-            for kk in ("int", "float", "cat"):
+            for kk in ("int", "float", "cat", "idxname", "index"):
                 c = dict(case, key=kk, subsets=[])
                 r = _evaluate(c)
                 if r["viols"]:
                     return {"status": "inapplicable", "viols": [], "info": {"why": "single-frame violation reported separately"}}
                 assigns[kk] = {float(eval(k)[1]): v for k, v in r["info"]["assign"].items()}
             viols = []
-            if not (assigns["int"] == assigns["float"] == assigns["cat"]):
+            if not (assigns["int"] == assigns["float"] == assigns["cat"] == assigns["idxname"] == assigns["index"]):
                 viols.append({"kind": "partition_number_differs_across_dtypes", "detail": str(assigns)[:300]})
             # observable consequence: a column/column hash join of int keys with float keys equals pandas
             left = tables.from_parts(make_frame(case["n_in"], "int"))
@@ -163,6 +170,15 @@ def evaluate_cross(case):
             r = core.compare(exp, got, ordered=False, labelled=False, check_kinds=False)
             if r:
                 viols.append({"kind": "mixed_dtype_join_" + r.split(" ")[0], "detail": r})
+            # ... and of an integer index referred to by its name with a float column
+            li = tables.from_parts(make_frame(case["n_in"], "idxname"))
+            with dask.config.set({"dataframe.shuffle.method": case["method"]}):
+                m2 = li.merge(right, left_on="ki", right_on="k", how="inner", npartitions=case["n_out"], broadcast=False)
+                got2 = core.run(m2.optimize(fuse=False).expr)
+            exp2 = pd.concat(make_frame(case["n_in"], "idxname")).merge(pd.concat(make_frame(max(1, case["n_in"] - 1), "float")), left_on="ki", right_on="k")
+            r2 = core.compare(exp2, got2, ordered=False, labelled=False, check_kinds=False)
+            if r2:
+                viols.append({"kind": "index_by_name_join_" + r2.split(" ")[0], "detail": r2})
             return {"status": "viol" if viols else "ok", "viols": viols, "info": {"nontrivial": True}}
     except CaseTimeout as e:
         return {"status": "viol", "viols": [{"kind": "timeout", "detail": str(e)}], "info": {}}
@@ -218,7 +234,7 @@ def run(ctx):
                         for kk in keys:
                             full = kk == "int" and not ign
                             cases.append({"n_in": n_in, "n_out": n_out, "max_branch": mb, "method": method, "ignore_index": ign, "key": kk,
-                                          "subsets": subsets_for(n_out, full) if kk in ("int", "str", "index") else []})
+                                          "subsets": subsets_for(n_out, full) if kk in ("int", "str", "index", "idxname") else []})
                     cases.append({"cross": True, "n_in": n_in, "n_out": n_out, "max_branch": mb, "method": method, "ignore_index": False})
     for n_in, n_out, mb in ((5, 5, 2), (6, 3, 2), (3, 6, 2)):
         cases.append({"n_in": n_in, "n_out": n_out, "max_branch": mb, "method": "tasks", "ignore_index": False, "key": "int", "fuse": True, "subsets": subsets_for(n_out, True)})
